@@ -174,12 +174,12 @@ pub fn rule(prop: &str) -> &'static str {
     match prop {
         "C02" => "one case = one generated sequence (frequency-profile generator: single, equiprobable, geometric, plateaus, zipf, near-ties, heavy+singletons, deep, random; dense/holed/high/power-of-4 alphabets; 4 arrangements) built K times through the real constructor under K simulated enumeration orders of the two hash maps (canonical, reverse, seeded; all permutations for alphabets <= 6) and swept with get/rank/rank_prefetch/select against the naive model. distinct = distinct serialized structures (FNV of the bincode bytes) reached; non-trivial = the sequence has >= 2 distinct symbols (so a code table exists and enumeration order can matter)",
         "C03" => "as C02 with binary fragments; alias HWT (two simulated hash-map orders) in 2/3 of the cases and WT (no seam, control for the shared binary machinery) in 1/3; distinct = distinct serialized structures; non-trivial = >= 2 distinct symbols",
-        "C08" => "one case = an initial state (new / with_capacity / with_zeros / collected from bools / collected from positions) plus a history of up to 40 (quick) or 60 (thorough) operations drawn with per-run weights from push, append_bits, extend_with_zeros, set, set_bits, extend(bools), extend(positions), shrink_to_fit and the lifecycle events clone, clone_from into an existing vector, freeze/thaw, iter().collect(), into_iter().collect(), persist+restart through the simulated disk under retryable faults; the Vec<bool> model is compared after every step (len, counts, get, get_bits, get_word) and fully (iterators, *_with_pos, frozen readers, ==) every 8th step and at the end. distinct = distinct (initial state kind, operation-kind sequence, final length mod 512, density class) fingerprints; non-trivial = history of >= 2 operations",
-        "C09" => "one case = a quad tree (8 aliases) over a generated sequence of up to 20000 (quick) / 70000 (thorough) symbols with 2..1000 distinct symbols; ~400 (symbol, position) pairs, valid or not; rank_prefetch is compared with rank with the prefetch fault point disarmed, then again (together with get) with every prefetch offset perturbed at the sink with per-run probability and kind mask; per-run answer digests are compared with the build without the crate's prefetch feature. distinct = distinct (alias, levels, sampling periods, perturbation probability, kind mask); non-trivial = >= 2 levels",
-        "C11" => "one case = one value of one of the 19 serializable public types (trees under seeded enumeration orders, bit/quad structures, Default values) x one of 5 bincode configurations x a transport: fault-free in-memory (40%) or the simulated disk with an explicit fault script keyed by byte offset (short writes/reads, EINTR, optional BufWriter/BufReader of random capacity, sync, crash after sync; in 30% of faulty runs also hard errors, crash before sync, early EOF, which are informational only). Obligations when owed: success, ==, byte-identical re-serialization, 60 queries answered identically. distinct = distinct (type, configuration, fault-kind set, transport knobs, size class); non-trivial = non-empty value",
-        "C12" => "one case = a container (10 tree aliases under seeded enumeration orders, BitVector, BitVectorMut, DArray, QVector, RSQVector; 0..600 elements, sparse bit containers of 513..3300 bits, and Default-constructed values of every type), one of its iterators (iter, (&x).into_iter, into_iter, ones/zeros[_with_pos] with start positions at word/line boundaries, inside and past the end) and a history of up to 2n+12 calls over the methods that iterator has {next, next_back, len, size_hint, nth, nth_back} optionally ended by fold / count / last on the rest; a VecDeque model is compared after every call, including after exhaustion; a panic while obtaining the iterator is a violation. distinct = distinct (iterator type, iterator kind, size class, first 24 calls, length class); non-trivial = >= 2 elements and >= 3 calls",
-        "C13" => "one case = QVectorBuilder::new / with_capacity / collect, then up to 30 operations from push(any u8), extend(vector of one of the 12 integer types, any bit pattern), clone-and-continue, snapshot (clone().build() compared with the model), finally build(); or QVector::from_iter directly; the source iterators of collect/extend report exact or legal-but-unhelpful size hints ((0,None), (0,Some(usize::MAX)), (<=1,Some(2^62)), (0,Some(2^63+5))); every built vector is observed through len/is_empty/get (incl. far out-of-range indices), iter/into_iter collect and fold on partly consumed iterators, skip(k)/step_by(k)/nth(k). Model = Vec<u8> of the two low bits. distinct = distinct (operation-kind sequence, length mod 256, lines); non-trivial = >= 2 symbols",
-        "C18" => "one scenario = one immutable structure (19 types) with a batch of 30..90 queries: sequential purity (answers repeated and in another order, serialized bytes before/after), then 2..4 simulated threads each issuing an overlapping two-thirds slice of the batch on the shared reference under seeded random or PCT schedules with scheduling points between queries and at the H4 points inside query loops; every answer is asserted against the single-thread answer; plus Miri executions (real threads, interpreter-seeded pre-emption at any basic block, data-race detection) of the scenarios c18all / c18big / c18quad. evaluations counts scenarios; distinct = distinct schedules (hash of the sequence of scheduling choices); non-trivial = non-empty structure",
+        "C08" => "one case = an initial state (new / with_capacity / with_zeros / collected from bools / collected from positions) plus a history of up to 40 (quick) or 60 (thorough) operations drawn with per-run weights from push, append_bits, extend_with_zeros, set, set_bits, extend(bools), extend(positions) - from sources with exact or unhelpful size hints, and from faulty sources that end early or panic after j values (panic caught, history continues) -, shrink_to_fit and the lifecycle events clone, clone_from into an existing vector, freeze/thaw, iter().collect(), into_iter().collect(), persist+restart through the simulated disk under retryable faults; the Vec<bool> model is compared after every step (len, counts, get, get_bits, get_word) and fully (iterators incl. step_by/nth/len/count/last, *_with_pos, unchecked readers inside their preconditions, frozen readers, positions of every integer type, ==) every 8th step and at the end. distinct = distinct (initial state kind, operation-kind sequence, final length mod 512, density class) fingerprints; non-trivial = history of >= 2 operations",
+        "C09" => "one case = a quad tree (8 aliases) over a generated sequence of up to 20000 (quick) / 70000 (thorough) symbols with 2..1000 distinct symbols; ~400 (symbol, position) pairs, valid or not; rank_prefetch is compared with rank with the prefetch fault point disarmed, then again (together with get) with every prefetch offset perturbed at the sink with per-run probability and kind mask; per-run answer digests are compared with the build without the crate's prefetch feature; the tree is queried as built, reloaded, cloned, after clone_from into an existing smaller tree, or loaded from the bytes of the alias that differs only in prefetch support. distinct = distinct (alias, levels, sampling periods, perturbation probability, kind mask); non-trivial = >= 2 levels",
+        "C11" => "one case = one value of one of the 19 serializable public types (trees under seeded enumeration orders, bit/quad structures incl. bit strings shaped after the select inventories, Default values; half of the values serialized right after another, larger value of the same type on the same thread) x one of 5 bincode configurations x a transport: fault-free in-memory (40%) or the simulated disk with an explicit fault script keyed by byte offset (short writes/reads, EINTR, optional BufWriter/BufReader of random capacity, sync, crash after sync; in 30% of faulty runs also hard errors, crash before sync, early EOF, which are informational only). Obligations when owed: success, ==, byte-identical re-serialization, 60 queries answered identically. distinct = distinct (type, configuration, fault-kind set, transport knobs, size class); non-trivial = non-empty value",
+        "C12" => "one case = a container (10 tree aliases under seeded enumeration orders, BitVector, BitVectorMut, DArray, QVector, RSQVector; 0..600 elements, sparse bit containers of 513..3300 bits, and Default-constructed values of every type), one of its iterators (iter, (&x).into_iter, into_iter, ones/zeros[_with_pos] with start positions at word/line boundaries, inside and past the end) and a history of up to 2n+12 calls over the methods that iterator has {next, next_back, len, size_hint, nth, nth_back} optionally ended by fold / count / last on the rest; a VecDeque model is compared after every call, including after exhaustion; a panic while obtaining the iterator is a violation; terminal calls also rfold / min_by_key / max_by_key; containers in four incarnations (built, reloaded, clone, clone_from) and bit vectors grown by a history. distinct = distinct (iterator type, iterator kind, size class, first 24 calls, length class); non-trivial = >= 2 elements and >= 3 calls",
+        "C13" => "one case = QVectorBuilder::new / with_capacity / collect, then up to 30 operations from push(any u8), extend(vector of one of the 12 integer types, any bit pattern), clone-and-continue, snapshot (clone().build() compared with the model), finally build(); or QVector::from_iter directly; the source iterators of collect/extend report exact or legal-but-unhelpful size hints ((0,None), (0,Some(usize::MAX)), (<=1,Some(2^62)), (0,Some(2^63+5))); builders also Default / clone_from / extend from faulty sources (end early, panic after j values); every built vector is observed through len/is_empty/get (incl. far out-of-range indices), iter/into_iter collect and fold on partly consumed iterators, skip(k)/step_by(k)/nth(k). Model = Vec<u8> of the two low bits. distinct = distinct (operation-kind sequence, length mod 256, lines); non-trivial = >= 2 symbols",
+        "C18" => "one scenario = one immutable structure (19 types; as built, reloaded, clone or clone_from; one in ten a *Pfs tree with non-trivial prefetch samples queried through rank_prefetch) with a batch of 30..90 queries: sequential purity (answers repeated and in another order, serialized bytes before/after), then 2..4 simulated threads each issuing an overlapping two-thirds slice of the batch on the shared reference under seeded random or PCT schedules with scheduling points between queries and at the H4 points inside query loops; every answer is asserted against the single-thread answer; plus Miri executions (real threads, interpreter-seeded pre-emption at any basic block, data-race detection) of the scenarios c18all / c18big / c18quad. evaluations counts scenarios; distinct = distinct schedules (hash of the sequence of scheduling choices); non-trivial = non-empty structure",
         _ => "",
     }
 }
